@@ -26,7 +26,12 @@ ASSUMED = {
             'least-number principle and induction over the rank are proof rules of the generator (base and step VCs are discharged by z3)'],
     'C13': ['K_svd as in C12; callee contract of MPS.orthonormalize as proved by the sweep contracts of C01',
             'compress of the zero state divides by |T| = 0: the property is stated for non-zero states (assumed precondition)'],
-    'C14': ['Afunc maps a vector of length n to a vector of length n and does not modify its argument', 'loops are over-approximated by havoc with inferred shape invariants'],
+    'C14': ['Afunc maps a vector of length n to a vector of length n and does not modify its argument', 'loops are over-approximated by havoc with inferred shape invariants',
+            'inner-product level (vt/zkry.py): np.vdot is an inner product (conjugate-linear in its first argument), +, -, scalar multiples and division by a real act '
+            'linearly on it, norm^2 = vdot(x, x), (M.conj() @ w)[i] = vdot(M[i], w), M.T @ c = sum_i c[i] M[i] (conformance-tested on concrete inputs; '
+            'the algebraic facts are proved in vt/lemmas/Krylov.lean; that the generator states them as in the Lean file is by reading, not machine-checked)',
+            'Afunc is a function of its argument (the same vector gives the same result) and, for lanczos_iteration, Hermitian: vdot(x, A y) = vdot(A x, y) (hypothesis of the property)',
+            'exact real/complex arithmetic instead of floating point'],
     'C15': ['contracts of lanczos_iteration / arnoldi_iteration as proved in C14 (sizes only), eigh_tridiagonal and expm return arrays of the documented shapes'],
     'C16': [], 'C17': [], 'C18': ['the Lean lemma is about abstract finite sets of edges; its link to the Python data structures is not machine-checked'],
     'C19': ['callable arguments (Afunc, opics(i), active(i)) do not modify their arguments (their results are treated as caller-owned memory that may alias the arguments)', 'unknown methods are pure and may return a view of their receiver',
@@ -49,7 +54,7 @@ BOUNDED_ONLY = {
     'C11': ['floating-point residuals of Q R = A and Q^H Q = I (the deductive proof is in exact arithmetic)'],
     'C12': ['error identity ||A - u s v||^2 = sum of discarded s^2 for tol > 0', 'floating-point residuals of the isometry clauses and of the zero-tolerance product'],
     'C13': ['scale in [sqrt(1 - L tol), 1]', 'error identity for compress', 'first truncated bond keeps the prescribed Schmidt values', 'from_vector error bound'],
-    'C14': ['orthonormality of the Krylov vectors', 'projected map equals the tridiagonal / Hessenberg matrix (the Hessenberg *structure* of the Arnoldi matrix is discharged)', 'positivity of the Arnoldi sub-diagonal (the Lanczos off-diagonals are discharged)'],
+    'C14': ['floating-point residuals of orthonormality and of the projected-map identity (both are discharged in exact arithmetic)', 'behaviour with maps that return views of their argument, second calls (engine F obligations are discharged; the byte-level confirmation is bounded)'],
     'C15': ['Ritz value bounds', 'norm preservation of the Hermitian exponential', 'exactness once the Krylov space is exhausted'],
     'C16': ['rewrites preserve the denoted operator', 'is_consistent after every rewrite', 'simplify never increases node/edge counts'],
     'C17': ['graph of trees denotes the padded sum', 'unrolled automaton denotes the sum over paths', 'dense meaning agrees with the symbolic meaning'],
